@@ -66,6 +66,17 @@ func (s *Solver) SetTimeout(ms int) {
 	}
 }
 
+// Reset clears all definitions and assertions (used between paths in fork mode).
+func (s *Solver) Reset() {
+	s.send("(reset)")
+	if s.name == "cvc5" {
+		s.send("(set-logic ALL)")
+	}
+	s.send("(set-option :produce-models true)")
+	s.send(fmt.Sprintf("(set-option :timeout %d)", s.timeoutMs))
+	s.sent = map[int]bool{}
+}
+
 func (s *Solver) Close() {
 	if s == nil || s.cmd == nil {
 		return
